@@ -157,6 +157,7 @@ structure StunView where
   bindingSuccess : Bool                -- msg.Type == stun.BindingSuccess
   xorAddr : Option (Bytes × Int)       -- XORMappedAddress.GetFrom(msg) == nil → (IP, Port)
   mappedAddr : Option (Bytes × Int)    -- MappedAddress.GetFrom(msg) == nil → (IP, Port)
+  txid : Bytes                         -- msg.TransactionID (meaningful when decodeOk)
   deriving DecidableEq, Repr
 
 /-- netIPPortToAddrPort -/
@@ -177,9 +178,20 @@ def parseStun (v : StunView) : Option AddrPort :=
       | some (ip, port) => netIPPortToAddrPort ip port
       | none => none
 
-/-- decodeSTUNPacket -/
-def decodeStun (v : StunView) : Option AddrPort :=
-  if !v.isMessage then none else parseStun v
+/-- STUNPacketEvent: `Message *stun.Message` is a POINTER — `none` is Go's nil; the consumer
+    (DiscoverWithDemux) dereferences it.  The parsed message is represented by its transaction id. -/
+structure StunEvent where
+  message : Option Bytes
+  addr : AddrPort
+  deriving DecidableEq, Repr
+
+/-- decodeSTUNPacket: an event is produced only from a successfully parsed binding response, and
+    then carries that message (`Hy.Props.C20.stun_events_have_message`) -/
+def decodeStun (v : StunView) : Option StunEvent :=
+  if !v.isMessage then none
+  else match parseStun v with
+    | some a => some ⟨some v.txid, a⟩
+    | none => none
 
 /-! ### the attempt registry: a finite map id → metadata -/
 
@@ -245,7 +257,7 @@ def scanPunch (H : Bytes → Bytes) (r : Registry) (p : PktIn) : Res (Option Pun
         | _ => .ok none
 
 inductive Verdict where
-  | stun (addr : AddrPort)
+  | stun (ev : StunEvent)
   | punch (ev : PunchEvent)
   | pass
   deriving DecidableEq, Repr
@@ -266,8 +278,8 @@ structure Conn where
   reg : Registry
   cap : Nat
   events : List PunchEvent
-  stun : List AddrPort
-  deriving Repr
+  stun : List StunEvent
+  deriving DecidableEq, Repr
 
 /-- NewPunchPacketConn -/
 def Conn.new (eventBuffer : Int) : Conn :=
@@ -306,6 +318,52 @@ def readFrom (H : Bytes → Bytes) (c : Conn) : List Input → Res (Conn × Ret 
     | .ok .pass => .ok (c, .pkt p.data p.src, 1)
     | .reject => .reject
     | .panic => .panic
+
+/-! ### the consumer of the STUN events: DiscoverWithDemux after sendSTUNRequests
+
+  `txs` = transaction ids of the binding requests just sent, `results` = mapped addresses seen so
+  far (a set: first occurrence kept), the list = the events the channel delivers, in order, before
+  the timeout.  `ev.Message.TransactionID` on a nil Message is a nil-pointer panic. -/
+
+def consumeStun : List Bytes → List AddrPort → List StunEvent → Res (List Bytes × List AddrPort × List StunEvent)
+  | [], results, evs => .ok ([], results, evs)            -- `for len(transactions) > 0`
+  | txs, results, [] => .ok (txs, results, [])            -- ctx.Done(): nothing more arrives
+  | txs, results, ev :: rest =>
+    match ev.message with
+    | none => .panic
+    | some id =>
+      if txs.contains id then
+        consumeStun (txs.filter (· != id)) (if results.contains ev.addr then results else results ++ [ev.addr]) rest
+      else consumeStun txs results rest
+
+inductive DiscoverResult where
+  | addrs (as : List AddrPort)      -- finishSTUNResults with at least one result (sorting by String() not modelled)
+  | failed                          -- no result: the context's error / "no STUN responses received"
+  deriving DecidableEq, Repr
+
+/-- DiscoverWithDemux on a conn whose STUN channel holds `c.stun`: first the queued events are
+    consumed; if transactions are still open and the server's answer arrives, the (concurrent)
+    reader classifies it and the consumer sees whatever that put on the channel; then the timeout. -/
+def discover (H : Bytes → Bytes) (c : Conn) (txs : List Bytes) (answer : Option PktIn) :
+    Res (Conn × DiscoverResult) :=
+  match consumeStun txs [] c.stun with
+  | .panic => .panic
+  | .reject => .reject
+  | .ok (txs1, res1, left1) =>
+    let fin (c : Conn) (res : List AddrPort) : Res (Conn × DiscoverResult) :=
+      .ok (c, if res.isEmpty then .failed else .addrs res)
+    match txs1, answer with
+    | [], _ => fin { c with stun := left1 } res1
+    | _, none => fin { c with stun := left1 } res1
+    | _, some p =>
+      match readFrom H { c with stun := left1 } [.pkt p] with
+      | .panic => .panic
+      | .reject => .reject
+      | .ok (c2, _, _) =>
+        match consumeStun txs1 res1 c2.stun with
+        | .panic => .panic
+        | .reject => .reject
+        | .ok (_, res2, left2) => fin { c2 with stun := left2 } res2
 
 /-! ### goroutines: registrations, removals and the reader as atomic steps
 
